@@ -3,6 +3,7 @@ from __future__ import annotations
 
 import json
 import os
+import itertools
 import random
 import re
 
@@ -307,6 +308,17 @@ def catalogue(cat: Cat, rng: random.Random, tier: str):
         add(("alias", nm("A"), ("alias", nm("A"), c)))
     for c in gens:
         add(("newtype", nm("N"), c))
+    # every NewType / alias stack of depth 3 and 4: the wrapper-resolution loop alternates between the two kinds, and a
+    # stack such as alias -> NewType -> alias needs three rounds (seeded change C17-r3m2 straightened the loop)
+    deep_cores = [C("int"), C("str"), C("date"), C("UData"), li, ("csub", "dict", [C("str"), C("int")]),
+                  ("tsub", "Mapping", [C("str"), C("int")])]
+    for depth in (3, 4):
+        for shape in itertools.product(("newtype", "alias"), repeat=depth):
+            for c in deep_cores:
+                d = c
+                for w in reversed(shape):
+                    d = (w, nm("N" if w == "newtype" else "A"), d)
+                add(d)
     add(("aliasstr", "ASU", "UData")); add(("aliasstr", "ASI", "int")); add(("aliasstr", "ASL", "list[int]"))
     add(("newtype", nm("N"), ("aliasstr", "ASU", "UData")))
     add(("final", ("newtype", nm("N"), C("int")))); add(("classvar", ("alias", nm("A"), C("int"))))
